@@ -425,6 +425,8 @@ def main(pid):
         try:
             si, sm = eval_cases(mod, [small], tag="r")
             s_impl, s_model = si[0], sm[vs[0]][0]
+            if s_impl == s_model:   # non-deterministic (concurrent) case did not re-fail: keep the observed one
+                raise RuntimeError("shrunk case did not re-fail")
         except Exception:
             small, s_impl, s_model = cases[i], impl[i], models[vs[0]][i]
         obj = {"property": pid, "kind": "failing-input" if kind == "P" else "correspondence-broken",
